@@ -14,7 +14,8 @@ import (
 
 var c11Index = map[byte]int{'C': 0, 'D': 2, 'E': 4, 'F': 5, 'G': 7, 'A': 9, 'B': 11}
 
-// refNote: (value, valid, ambiguous).  ambiguous = spellings the text does not decide ("-0").
+// refNote: (value, valid, ambiguous). Nothing is ambiguous any more: "C-0" is not one of the 128 names (octaves are
+// written -2 -1 0 1 ... 8), it is "C0" with an extra character and has to be rejected like "C--1" or "C+0".
 func refNote(s string) (int, bool, bool) {
 	if len(s) < 2 {
 		return 0, false, false
@@ -43,10 +44,6 @@ func refNote(s string) (int, bool, bool) {
 		oct = -1
 	case rest == "-2":
 		oct = -2
-	case rest == "-0":
-		// "C-0": not one of the 128 canonical names, but a reading of "octave 0"; not asserted.
-		v := 12*2 + idx
-		return v, true, true
 	default:
 		return 0, false, false
 	}
